@@ -294,6 +294,7 @@ type GenOpts struct {
 	NoDupUnionFrag bool // at most one fragment per union member (exclusion of a known finding)
 	NoUnionTypename bool // no bare __typename under a union together with shared named fragments
 	UnionTypenameAlways bool // always select __typename under unions (federation gateway injects it)
+	ShareBias      bool // favour named fragments spread at several places, each followed by a merged copy of one of the fragment's composite fields
 }
 
 // Features records which interesting shapes a generated query contains.
@@ -576,7 +577,7 @@ func (g *qgen) genObjSels(obj string, depth int, underUnion bool, scope map[stri
 			// sometimes follow the spread by an inline fragment that selects one of the
 			// fragment's composite fields again, with other sub-selections: the merged copy is
 			// then built on top of a selection set that other spreads of the fragment share
-			if fd := g.q.Frag(sp.Frag); fd != nil && depth > 1 && rapid.IntRange(0, 2).Draw(g.t, "followspread") == 0 {
+			if fd := g.q.Frag(sp.Frag); fd != nil && depth > 1 && (rapid.IntRange(0, 2).Draw(g.t, "followspread") == 0 || g.o.ShareBias) {
 				for _, fs := range fd.Sels {
 					if fs.Kind != "field" || fs.Sub == nil {
 						continue
@@ -613,7 +614,7 @@ func (g *qgen) genSpread(obj string, depth int, underUnion bool, scope map[strin
 		}
 	}
 	var name string
-	if len(candidates) > 0 && rapid.IntRange(0, 2).Draw(g.t, "reusefrag") > 0 {
+	if len(candidates) > 0 && (rapid.IntRange(0, 2).Draw(g.t, "reusefrag") > 0 || g.o.ShareBias) {
 		name = candidates[rapid.IntRange(0, len(candidates)-1).Draw(g.t, "whichfrag")]
 	} else {
 		name = fmt.Sprintf("F%d", len(g.q.Frags))
@@ -836,4 +837,81 @@ func (g *qgen) genSpreadRoot(depth int) Sel {
 	g.spreadCount[name]++
 	s := Sel{Kind: "spread", Frag: name, Dirs: g.genDirs(false)}
 	return s
+}
+
+// GenSharedFragQuery builds the shape "one named fragment, spread at several places, each
+// place selecting one of the fragment's composite fields once more with a few extra
+// sub-fields": the merged copies of all places are built from the one selection set the
+// spreads share. Sizes of the shared sub-selection run over 1..9 entries (slices grown by
+// append have spare capacity at 3, 5-7, 9-15 entries). Returns nil when the spec has no
+// object-typed root list whose element type has a composite field-func field.
+func GenSharedFragQuery(t *rapid.T, s *Spec) *Query {
+	type cand struct {
+		root  TField
+		obj   string
+		inner TField
+		child string
+	}
+	var cands []cand
+	for _, rf := range s.FieldsOf("Query") {
+		obj, isU := Composite(rf.GoType)
+		if obj == "" || isU || (rf.Spec != nil && rf.Spec.Args != "") {
+			continue
+		}
+		for _, f := range s.FieldsOf(obj) {
+			child, isU2 := Composite(f.GoType)
+			if child == "" || isU2 || (f.Spec != nil && f.Spec.Args != "") {
+				continue
+			}
+			cands = append(cands, cand{rf, obj, f, child})
+		}
+	}
+	if len(cands) == 0 {
+		return nil
+	}
+	c := cands[rapid.IntRange(0, len(cands)-1).Draw(t, "sfcand")]
+	var leaves []TField
+	for _, f := range s.FieldsOf(c.child) {
+		if cc, _ := Composite(f.GoType); cc == "" && (f.Spec == nil || f.Spec.Args == "") {
+			leaves = append(leaves, f)
+		}
+	}
+	if len(leaves) == 0 {
+		return nil
+	}
+	pick := func(label string) Sel {
+		f := leaves[rapid.IntRange(0, len(leaves)-1).Draw(t, label)]
+		return Sel{Kind: "field", Name: f.Name}
+	}
+	q := &Query{Values: map[string]interface{}{}}
+	var shared []Sel
+	for i := 0; i < rapid.IntRange(1, 9).Draw(t, "sfshared"); i++ {
+		shared = append(shared, pick("sfleaf"))
+	}
+	q.Frags = []FragDef{{Name: "SF", On: c.obj, Sels: []Sel{{Kind: "field", Name: c.inner.Name, Sub: shared}}}}
+	places := rapid.IntRange(2, 3).Draw(t, "sfplaces")
+	for p := 0; p < places; p++ {
+		var extra []Sel
+		for i := 0; i < rapid.IntRange(1, 3).Draw(t, "sfextra"); i++ {
+			e := pick("sfextraleaf")
+			// a response key of its own, so that places differ visibly
+			e.Alias = fmt.Sprintf("x%d_%s", p, e.Name)
+			extra = append(extra, e)
+		}
+		again := Sel{Kind: "field", Name: c.inner.Name, Sub: extra}
+		var follow Sel
+		if rapid.Bool().Draw(t, "sfnamed") {
+			fn := fmt.Sprintf("SG%d", p)
+			q.Frags = append(q.Frags, FragDef{Name: fn, On: c.obj, Sels: []Sel{again}})
+			follow = Sel{Kind: "spread", Frag: fn}
+		} else {
+			follow = Sel{Kind: "inline", On: c.obj, Sub: []Sel{again}}
+		}
+		sub := []Sel{{Kind: "spread", Frag: "SF"}, follow}
+		if rapid.IntRange(0, 3).Draw(t, "sfplain") == 0 {
+			sub = append([]Sel{{Kind: "field", Name: "__typename"}}, sub...)
+		}
+		q.Sels = append(q.Sels, Sel{Kind: "field", Name: c.root.Name, Alias: fmt.Sprintf("p%d", p), Sub: sub})
+	}
+	return q
 }
